@@ -1,0 +1,1 @@
+//! Verification hooks (hx group); see `mod.rs`.
